@@ -197,7 +197,7 @@ func runC17(r *engine.Run) {
 		r.HarnessError("%v", err)
 		return
 	}
-	r.Rule = "E1. Frequency: decode(encode(f)) = f for (quick) every multiple of 100 Hz in 100..1000 MHz and 2.4..2.5 GHz plus every Hz of twenty 10 kHz windows, (thorough) every Hz value 0..2^32; Percentage: every integer -1000..1000; HEXBytes: lengths 0..600 and 1 KiB..64 KiB x 3 fillers x {plain, 0x-prefixed, upper case}; ISO8601Time: every second of four days (years 1, 1970, 2038, 9999) x zone {Z, +05:30, -08:00}; each of the 20 payload structs and the 13 building-block structs with every subset of its optional (pointer / omitempty) fields present (up to 2^10 subsets) x 3 value variants, compared field by field after json.Marshal/json.Unmarshal. Key envelopes: KEK length {16,24,32} x KEK(2) x key(3) x label {'', 'lbl'}: blob equals an independent RFC 3394 wrap, Unwrap returns the key, every single-bit flip of the blob (192), wrong KEK and truncated/extended blobs: Unwrap succeeds iff the independent integrity check passes. Non-trivial: a value that was encoded, decoded and compared."
+	r.Rule = "E1. Frequency: decode(encode(f)) = f for (quick) every multiple of 100 Hz in 100..1000 MHz and 2.4..2.5 GHz plus every Hz of twenty 10 kHz windows, (thorough) every Hz value 0..2^32; Percentage: every integer -1000..1000; HEXBytes: lengths 0..600 and 1 KiB..64 KiB x 3 fillers x {plain, 0x-prefixed, upper case}; ISO8601Time: every second of four days (years 1, 1970, 2038, 9999) x zone {Z, +05:30, -08:00}; each of the 20 payload structs and the 13 building-block structs with every subset of its optional (pointer / omitempty) fields present (up to 2^10 subsets) x 4 value variants (three value sets; present pointer fields pointing at the zero value), compared field by field after json.Marshal/json.Unmarshal. Key envelopes: KEK length {16,24,32} x KEK(2) x key(3) x label {'', 'lbl'}: blob equals an independent RFC 3394 wrap, Unwrap returns the key, every single-bit flip of the blob (192), wrong KEK and truncated/extended blobs: Unwrap succeeds iff the independent integrity check passes. Non-trivial: a value that was encoded, decoded and compared."
 	// the process time zone is read by the time package (and by whoever calls time.Local / time.Date with it)
 	// when the process starts: an answer of the environment, not an argument
 	r.EnvironmentVariants([]engine.EnvVariant{{Name: "TZ=Asia/Tokyo", Env: []string{"TZ=Asia/Tokyo"}}, {Name: "TZ=America/Los_Angeles", Env: []string{"TZ=America/Los_Angeles"}}, {Name: "TZ=Pacific/Kiritimati", Env: []string{"TZ=Pacific/Kiritimati"}}})
@@ -366,12 +366,16 @@ func runC17(r *engine.Run) {
 		if nbits > 10 {
 			nbits = 10
 		}
-		n := uint64(3) << uint(nbits)
-		r.PartDims("struct/"+t.Name(), []string{fmt.Sprintf("optional fields:%d (subsets over the first %d; the others follow the subset index)", len(opts), nbits), "value variant:3"}, n, func(c *engine.Case) {
-			variant := int(c.Index % 3)
-			sub := int(c.Index / 3)
+		n := uint64(4) << uint(nbits)
+		r.PartDims("struct/"+t.Name(), []string{fmt.Sprintf("optional fields:%d (subsets over the first %d; the others follow the subset index)", len(opts), nbits), "value variant:4 (three value sets; present pointer fields pointing at the zero value of their type)"}, n, func(c *engine.Case) {
+			variant := int(c.Index % 4)
+			sub := int(c.Index / 4)
 			v := mk()
 			rv := reflect.ValueOf(v).Elem()
+			zeroPointees := variant == 3
+			if zeroPointees {
+				variant = 0
+			}
 			fillValue(rv, variant, 0)
 			// clear the optional fields that are not in the subset
 			for k := len(opts) - 1; k >= 0; k-- {
@@ -383,6 +387,12 @@ func runC17(r *engine.Run) {
 					f, ok := fieldByIndexSafe(rv, opts[k].index)
 					if ok {
 						f.Set(reflect.Zero(f.Type()))
+					}
+				} else if zeroPointees {
+					// present, and holding the zero value (the zero time, 0, false, an empty struct): present is
+					// not the same as absent
+					if f, ok := fieldByIndexSafe(rv, opts[k].index); ok && f.Kind() == reflect.Ptr {
+						f.Set(reflect.New(f.Type().Elem()))
 					}
 				}
 			}
